@@ -30,7 +30,15 @@ clang's typed AST (`clang-14 -Xclang -ast-dump=json`).  The result is a SHALLOW 
   * side effects inside expressions are supported in the forms `x++ x-- ++x --x` (also on pointers, also under `*`),
     with C's sequencing: the value of the expression is computed in the old state, the updates are applied after the
     statement (or after the evaluation of a loop / if condition);
-  * regions passed through different parameters are assumed not to overlap (trusted base), except the `flat` ones.
+  * regions passed through different parameters are assumed not to overlap (trusted base), except the `flat` ones;
+  * an ARRAY OF STRUCTS that is a member of a struct parameter (`p->a.arr[i].fld`) is one region per field (`p_a_arr_fld`).  A struct-pointer
+    local that is bound to such an array (`q = &(p->a.arr[e])`, `q = p->a.arr`) and MOVES over it (`q++`, re-assignment to another element of
+    the same array) is a CURSOR: an `Int` field holding its index; `q->fld` is the cell `[q]` of the region `p_a_arr_fld` (bounds-checked like
+    `p->a.arr[i].fld`).  `memset(p->a.arr, 0, sizeof(p->a.arr))` on such an array sets every cell of every field region to 0 (the field list
+    of the record comes from clang's record-layout dump of the C file, never from a hand-written list; any other memset of an array of
+    structs is rejected);
+  * `HDmemfill(dest, src, item_size, num_items)` is a builtin like memcpy (hdfalloc.c: `num_items` copies of the first `item_size` cells of
+    `src`, nothing when a count is 0; bounds of both regions are checked; source and destination must be different regions).
 
   * a pointer LOCAL that is assigned NULL somewhere (or declared `= NULL` and NULL-tested) carries its NULLness in the Bool field `<p>_null`;
     arithmetic on / comparison of / access through it while NULL is recorded in `ub`.  `p = f(…)` with f in opts['assume_ptr_calls']
@@ -189,6 +197,7 @@ class Fn:
         self.esz = {}            # region -> size in bytes of one cell (for realloc / malloc byte counts)
         self.alias_locals = set()
         self.aliases = {}        # struct-pointer locals: name -> (struct parameter, member path); set by their (single) assignment `q = &(p->a.b)`
+        self.cursors = {}        # struct-pointer locals that MOVE over an array of structs `p->a.arr`: name -> (struct parameter, member path of the array)
         self.pre_lines = []      # lines to emit before the statement being translated (calls of translated functions)
         self.ncalls = 0
         self.uses_join = False
@@ -357,6 +366,12 @@ class Fn:
                 fail("%s: address of a scalar" % self.name)
             # &a[i] itself is not an access (one-past-the-end is legal); the access through it is checked
             return (lv[1], lv[2], lv[3][:-1], lv[4])
+        if k == "UnaryOperator" and n["opcode"] in ("++", "--") and self.skip(n["inner"][0]).get("kind") == "DeclRefExpr" \
+                and self.skip(n["inner"][0])["referencedDecl"]["name"] in self.cursors:
+            # a cursor over an array of structs moves by one element: its index field changes by one
+            cn = lname(self.skip(n["inner"][0])["referencedDecl"]["name"])
+            new = "(s.%s %s 1)" % (cn, "+" if n["opcode"] == "++" else "-")
+            return ("%" + cn, ("s.%s" % cn) if n.get("isPostfix") else new, [], [Eff(("scalar", cn), new, cn)])
         if k == "UnaryOperator" and n["opcode"] in ("++", "--"):
             sub = self.skip(n["inner"][0])
             if sub.get("kind") != "DeclRefExpr" or sub["referencedDecl"]["name"] not in self.ptr or sub["referencedDecl"]["name"] in self.ptr_is_param_region:
@@ -389,6 +404,30 @@ class Fn:
             self.pre_lines += lines
             return self.pexpr(n["inner"][0])
         fail("%s: unsupported pointer expression %s" % (self.name, k))
+
+    def cursor_target(self, rhs):
+        """`&(p->a.arr[e])` / `p->a.arr` (array of structs) -> (MemberExpr of the array, index node | None); else (None, None)"""
+        r = self.skip(rhs)
+        if r.get("kind") == "UnaryOperator" and r.get("opcode") == "&":
+            r = self.skip(r["inner"][0])
+        if r.get("kind") == "ArraySubscriptExpr":
+            a = self.skip(r["inner"][0])
+            if a.get("kind") == "MemberExpr" and re.search(r"\[\d+\]$", base_type(qt(a))) and int_width(ptr_elem(qt(a)) or "") is None:
+                return a, r["inner"][1]
+            return None, None
+        if r.get("kind") == "MemberExpr" and re.search(r"\[\d+\]$", base_type(qt(r))) and int_width(ptr_elem(qt(r)) or "") is None \
+                and ptr_elem(ptr_elem(qt(r)) or "") is None:
+            return r, None
+        return None, None
+
+    def cursor_index(self, cn, rhs):
+        """index term stored into the cursor `cn` by `cn = &(p->a.arr[e])` (e) / `cn = p->a.arr` (0)"""
+        a, ix = self.cursor_target(rhs)
+        if a is None or self.member_chain(a) != self.cursors[cn]:
+            fail("%s: struct cursor %s is assigned something that is not an element of its array" % (self.name, cn))
+        if ix is None:
+            return "0", [], []
+        return self.rvalue(ix)
 
     def member_chain(self, n):
         """`p->a->b` / `p->a.b` -> ('p', ['a','b']);  through an alias local `q = &(p->a)`: `q->b` -> ('p', ['a','b'])"""
@@ -1359,6 +1398,43 @@ class Fn:
         if nm in self.opts.get("io", {}) or nm in self.opts.get("assume_calls", {}) or nm in self.opts.get("_fns", {}):
             t_, c_, e_ = self.rvalue(n)
             return self.with_effects(c_, [], e_, ind)
+        if nm in ("memset", "__builtin_memset", "HDmemset") and self.cursor_target(n["inner"][1])[0] is not None and self.cursor_target(n["inner"][1])[1] is None:
+            # memset(p->a.arr, 0, sizeof(p->a.arr)) on an ARRAY OF STRUCTS: every cell of every field region p_a_arr_<field> becomes 0
+            # (the fields of the record come from clang's record layout, never from a list written by hand)
+            a = self.cursor_target(n["inner"][1])[0]
+            p0, path0 = self.member_chain(a)
+            if p0 is None:
+                fail("%s: memset of an array of structs that is not a member of a struct parameter" % self.name)
+            vt, vc, ve = self.rvalue(n["inner"][2])
+            sz = n["inner"][3]
+            while sz.get("kind") in ("ParenExpr", "ImplicitCastExpr", "CStyleCastExpr", "ConstantExpr"):
+                sz = sz["inner"][0]
+            sa = self.skip(sz["inner"][0]) if sz.get("kind") == "UnaryExprOrTypeTraitExpr" and sz.get("name") == "sizeof" and sz.get("inner") else None
+            if vt != "0" or vc or ve or sa is None or sa.get("kind") != "MemberExpr" or self.member_chain(sa) != (p0, path0):
+                fail("%s: memset of an array of structs must be memset(x, 0, sizeof(x))" % self.name)
+            out = []
+            for fld_, fty_ in record_fields(self.opts, ptr_elem(qt(a))):
+                if int_width(fty_) is None:
+                    fail("%s: memset of an array of structs with the non-integer field %s" % (self.name, fld_))
+                reg = self.owned(p0, self.region, "%s_%s_%s" % (p0, "_".join(path0), fld_))
+                out.append(self.upd(reg, "List.replicate s.%s.length 0" % reg, ind))
+            return out
+        if nm == "HDmemfill":
+            # HDmemfill(dest, src, item_size, num_items) (hdfalloc.c): dest[0 .. num_items*item_size) := num_items copies of src[0 .. item_size);
+            # nothing happens when one of the two counts is 0.  A builtin like memcpy (its doubling copy loop is not translated).
+            rd, idd, cd, ed = self.pexpr(n["inner"][1])
+            rs_, is_, cs, es = self.pexpr(n["inner"][2])
+            zt, zc, ze = self.rvalue(n["inner"][3])
+            kt, kc, ke = self.rvalue(n["inner"][4])
+            if ed or es or ze or ke:
+                fail("%s: side effect in HDmemfill arguments" % self.name)
+            if rd.startswith("#") or rd.startswith("@") or rd == rs_:
+                fail("%s: HDmemfill into a read-only region / within one region" % self.name)
+            out = self.checks(cd + cs + zc + kc, ind)
+            out += self.checks(["%s = 0 ∨ %s = 0 ∨ (0 ≤ %s ∧ %s + %s * %s ≤ s.%s.length ∧ 0 ≤ %s ∧ %s + %s ≤ %s.length)" % (zt, kt, idd, idd, kt, zt, rd, is_, is_, zt, self.rt(rs_))], ind)
+            out.append(self.upd(rd, "(s.%s.take (Int.toNat (%s))) ++ (List.replicate (Int.toNat (%s)) ((%s.drop (Int.toNat (%s))).take (Int.toNat (%s)))).flatten ++ (s.%s.drop (Int.toNat (%s + %s * %s)))"
+                                % (rd, idd, kt, self.rt(rs_), is_, zt, rd, idd, kt, zt), ind))
+            return out
         if nm in ("memset", "__builtin_memset", "HDmemset"):
             rd, idd, cd, ed = self.pexpr(n["inner"][1])
             vt, vc, ve = self.rvalue(n["inner"][2])
@@ -1789,6 +1865,19 @@ class Fn:
             if not any(a == nm for a, _ in alias_assigns):
                 fail("%s: struct pointer %s is moved but never bound to an array of structs" % (self.name, nm))
         for nm, rhs in alias_assigns:
+            ca, _ = self.cursor_target(rhs)
+            if ca is not None:
+                # a struct pointer that moves over an array of structs (a member of a struct parameter): a CURSOR, an index field of its own
+                cp, cpath = self.member_chain(ca)
+                if cp is None:
+                    fail("%s: struct pointer %s points into an array that is not a member of a struct parameter" % (self.name, nm))
+                if nm in self.aliases or (nm in self.cursors and self.cursors[nm] != (cp, cpath)):
+                    fail("%s: struct pointer %s is bound to two different objects" % (self.name, nm))
+                self.cursors[nm] = (cp, cpath)
+                self.scalar(nm)
+                continue
+            if nm in self.cursors:
+                fail("%s: struct pointer %s is bound to two different objects" % (self.name, nm))
             r = self.skip(rhs)
             cb = self.cursor_base(r)
             if cb is not None and (nm in moved or cb[2] is not None):
@@ -2106,6 +2195,35 @@ class Fn:
         return "\n".join(out), params
 
 
+def record_fields(opts, tname):
+    """[(field name, type)] of the record type `tname` (a typedef'd struct), from clang's record-layout dump of the unit's C file"""
+    cache = opts.setdefault("_layouts", {})
+    if not cache:
+        cmd = ["clang-14", "-fsyntax-only", "-w", "-DH4_VERIF", "-Xclang", "-fdump-record-layouts"] + opts["_incs"] + [opts["_cpath"]]
+        r = subprocess.run(cmd, capture_output=True, text=True)
+        if r.returncode != 0:
+            fail("clang cannot dump the record layouts of %s" % opts["_cpath"])
+        cur = None
+        for line in r.stdout.splitlines():
+            m = re.match(r"^\s*\d+ \| (\s*)(.*\S)\s*$", line)
+            if line.startswith("*** Dumping AST Record Layout"):
+                cur = None
+                continue
+            if not m:
+                continue
+            ind_, txt_ = len(m.group(1)), m.group(2)
+            if ind_ == 0:
+                cur = re.sub(r"^(struct|union) ", "", txt_)
+                cache[cur] = []
+            elif ind_ == 2 and cur is not None:
+                ty_, _, fn_ = txt_.rpartition(" ")
+                cache[cur].append((fn_, ty_))
+    tname = base_type(tname or "")
+    if tname not in cache or not cache[tname]:
+        fail("record layout of %s not found" % tname)
+    return cache[tname]
+
+
 def resolve_consts(repo, bdir, cfile, names, incs):
     """values of enum constants / macros private to the .c file: a program that #includes the file is compiled against the library built
     from the same tree and PRINTS them (nothing is copied by hand)"""
@@ -2327,6 +2445,7 @@ def translate_unit(repo, bdir, unit, cfile, fns, opts=None, _want_fns=False):
         fo = dict(opts)
         fo.update(opts.get("per_fn", {}).get(fn, {}))
         fo["_fns"] = dict(done_fns)
+        fo["_incs"], fo["_cpath"] = incs, os.path.join(repo, cfile)
         need = [c_ for c_ in fo.get("unmodelled_cases", []) if c_ not in fo.get("consts", {})]
         if need:
             # the labels of the switch groups to leave out are needed before the first pass (the AST is pruned first)
